@@ -12,6 +12,10 @@ Decided:
   GUARD-C05e  scan_records pushes a record only after the checksum equality edge and the length-bounds edge.
   GUARD-C05f  records_after returns only entries passing `entry.sequence > <its parameter>`; pending_records passes
               checkpoint_sequence.
+  GUARD-C05g  a zero sentinel needs a free slot: maybe_write_sentinel reaches write_zero_header only on an edge where
+              pending_bytes < region_size holds (strictly). When pending records fill the ring to its last byte the
+              write head has wrapped onto the header of the oldest pending record, and a sentinel there makes the
+              scan stop at offset 0: every pending record is lost.
 Not decided: the exhaustive state-space claim over operation sequences."""
 from . import lib
 from .facts import Place, op_place
@@ -326,7 +330,28 @@ def check_records_after(ctx, F):
         ctx.bad('GUARD-C05f', pr, 'pending_records does not scan from checkpoint_sequence', detail='pending-from-checkpoint')
 
 
+def _sentinel_slot(ctx, F):
+    ctx.rule('GUARD-C05g', 'maybe_write_sentinel writes the zero sentinel only where pending_bytes < region_size (a full ring has no free slot)')
+    fn = ctx.need('GUARD-C05g', 'EmbeddedWal::maybe_write_sentinel')
+    if fn is None:
+        return
+    ctx.touch(fn, len(fn.blocks))
+    zs = fn.calls_to('EmbeddedWal::write_zero_header')
+    if not zs:
+        ctx.lost('GUARD-C05g', 'maybe_write_sentinel no longer calls write_zero_header')
+        return
+    for z in zs:
+        ctx.evaluations += 1
+        g = lib.find_guard(fn, z.bb, '<', lambda s_: s_.has_field('EmbeddedWal', 'pending_bytes'), lambda s_: s_.has_field('EmbeddedWal', 'region_size'))
+        if g is not None:
+            ctx.ok('GUARD-C05g', fn, 'sentinel written only where pending_bytes < region_size (test at line %s)' % g.line, line=z.line)
+        else:
+            ctx.bad('GUARD-C05g', fn, 'the zero sentinel can be written while pending_bytes == region_size: the ring is full, the write head sits on the oldest pending record\'s header, '
+                    'and the sentinel erases it (the scan then stops at offset 0 and every pending record is lost)', line=z.line, sink='write_zero_header', detail='sentinel-on-full-ring')
+
+
 def run(ctx):
+    _sentinel_slot(ctx, ctx.facts())
     ctx.rule('GUARD-C05a', 'a ring position becomes 0 only where pending_bytes == 0 is established (edge, dominating store, or every caller)')
     ctx.rule('MPT-C05b', 'append_entry: write_record ok -> bookkeeping -> maybe_write_sentinel ok on every Ok path')
     ctx.rule('GUARD-C05c', 'append_entry: capacity comparisons dominate the write and reject with CheckpointFailed')
